@@ -29,6 +29,7 @@ type Prog struct {
 	SSA     *ssa.Program
 	SSAPkg  map[string]*ssa.Package // import path -> ssa package (closure)
 
+	Inlined  int                        // call sites of new helpers expanded before SSA construction (inline.go)
 	Methods  map[string][]*ssa.Function // module methods by name (interface dispatch)
 	srcFuncs []*ssa.Function            // all functions (incl. anonymous) with source in module packages
 }
@@ -73,6 +74,24 @@ func Load(repoDir, goos string, extraPatterns ...string) (*Prog, error) {
 	}
 	sort.Slice(p.Roots, func(i, j int) bool { return p.Roots[i].PkgPath < p.Roots[j].PkgPath })
 	p.Fset = pkgs[0].Fset
+
+	// source-level normalisation: expand helpers the reviewed tree does not know (see inline.go). A failure of the
+	// normalisation never fails the analysis: the tree is then analysed as written.
+	if !DisableInline {
+		logStart := len(InlineLog)
+		n, ierr := inlineNewHelpers(p.Roots, p.ByPath, p.Fset)
+		if ierr != nil {
+			InlineLog = append(InlineLog[:logStart], "helper expansion abandoned: "+ierr.Error())
+			DisableInline = true
+			defer func() { DisableInline = false }()
+			q, err := Load(repoDir, goos, extraPatterns...)
+			if q != nil {
+				q.Inlined = 0
+			}
+			return q, err
+		}
+		p.Inlined = n
+	}
 
 	prog, _ := ssautil.AllPackages(pkgs, ssa.InstantiateGenerics)
 	prog.Build()
